@@ -376,9 +376,10 @@ Proof.
        match goal with
        | |- exists _, upd _ ?u _ _ = _ /\ _ =>
          destruct (Nat.eq_dec x u) as [E|Hne];
-         [ subst; try (exfalso; pose proof (A1 _ _ Hx1); lia);
-           rewrite Hth in Hx1; inversion Hx1; subst; rewrite ?Hpc in Hx2; cbn in Hx2; try discriminate Hx2;
-           eexists; split; [apply upd_same | norm_finish; cbn_st; try reflexivity; try (destruct hit; reflexivity)]
+         [ subst; first [ exfalso; pose proof (A1 _ _ Hx1); lia
+                        | rewrite Hth in Hx1; inversion Hx1; subst; rewrite ?Hpc in Hx2; cbn in Hx2;
+                          first [ discriminate Hx2
+                                | eexists; split; [apply upd_same | norm_finish; cbn_st; try reflexivity; try (destruct hit; reflexivity)] ] ]
          | eexists; split; [rewrite upd_other by assumption; eassumption | assumption] ]
        end; fail).
   Show.
